@@ -175,6 +175,32 @@ Theorem C06_terminates : forall cfg usevc0 has_opt0,
 Proof. exact failure_when_exhausted_ends. Qed.
 Print Assumptions C06_terminates.
 
+(* one read on one connection (read_answers), whatever it contains - retry-triggering replies,
+   duplicates, answers, messages that do not parse - and whatever happens to the connection:
+   when the read ends the query is not left behind in the requeue array; it has been handed to
+   ares_send_query, or completed, or is still outstanding on a connection (hence in the timeout
+   index), and the invariant (hence the bound and the termination measure) still holds *)
+Theorem C06_requeue_flushed : forall cfg usevc0 has_opt0,
+  cfg_strict cfg = true -> 1 <= cfg_tries cfg ->
+  cfg_smax cfg * cfg_tries cfg < 2 ^ 64 ->
+  forall servers on_tcp this_conn q tx items q' outs,
+  0 <= servers <= cfg_smax cfg ->
+  Inv cfg usevc0 has_opt0 q tx -> q_sending q = false ->
+  read_batch cfg true servers on_tcp this_conn q items = (q', outs) ->
+  Inv cfg usevc0 has_opt0 q' (tx + count_tx outs) /\ settled q'.
+Proof. exact read_batch_settles. Qed.
+Print Assumptions C06_requeue_flushed.
+
+(* the variant that skips the flush when the walk over the read ended with an error
+   (SERVFAIL, then a message that does not parse, in one read): the query is orphaned *)
+Theorem C06_requeue_flush_refuted_without_flush :
+  exists cfg q items q' outs,
+    cfg_strict cfg = true /\ q_conn q = Some false /\ q_ended q = None /\
+    read_batch cfg false 1 false true q items = (q', outs) /\ orphaned q' /\ q_queued q' = O /\
+    settled (fst (read_batch cfg true 1 false true q items)).
+Proof. exact read_batch_without_flush_refuted. Qed.
+Print Assumptions C06_requeue_flush_refuted_without_flush.
+
 (* the machine of the pinned tree (replies matched by id and question only) is NOT bounded:
    8 copies of a truncated reply in one read give 9 transmissions with a bound of 6 *)
 Theorem C06_transmissions_refuted_pinned :
